@@ -28,7 +28,7 @@ def pick(ctx, res, n, rnd):
 
 def validate(ctx, path, stage):
     return ctx.tlc("MetaJournalTrace", "MetaJournalTrace.cfg", workers=1, files={"trace.ndjson": path},
-                   timeout=2400, name=stage, expect_violation=True, keep_beh=False)
+                   timeout=2400, heap="2g", name=stage, expect_violation=True, keep_beh=False)
 
 
 def run(ctx):
@@ -46,13 +46,13 @@ def run(ctx):
                # histories after which the pinned tree (spec constants OrigNames / OrigSkip) breaks the property
                ("orig-names", "MetaJournal_orig_big.cfg" if th else "MetaJournal_orig.cfg", None),
                ("orig-skip", "MetaJournal_stale_big.cfg" if th else "MetaJournal_stale.cfg", None),
-               ("sim", "MetaJournal_sim.cfg", (400 if th else 60, 31))]
+               ("sim", "MetaJournal_sim.cfg", (300 if th else 15, 31))]
     w = 4
-    with ThreadPoolExecutor(max_workers=4 if th else 7) as ex:
-        fm = [ex.submit(ctx.tlc, "MetaJournalMC", cfg, workers=w, timeout=3000 if th else 900, name=what)
+    with ThreadPoolExecutor(max_workers=4) as ex:
+        fm = [ex.submit(ctx.tlc, "MetaJournalMC", cfg, workers=w, timeout=3000 if th else 900, name=what, heap="6g" if th else "3g")
               for cfg, what in mcs]
         fe = {k: ex.submit(ctx.tlc, "MetaJournalMC", cfg, workers=w, timeout=1500, simulate=simu,
-                           name="history export (%s)" % k) for k, cfg, simu in exports}
+                           name="history export (%s)" % k, heap="4g" if th else "2g") for k, cfg, simu in exports}
         for (cfg, what), f in zip(mcs, fm):
             ctx.require_model_ok(f.result(), "MetaJournal invariants (%s)" % cfg)
         exp = {k: f.result() for k, f in fe.items()}
@@ -62,15 +62,16 @@ def run(ctx):
     for k in ("orig-names", "orig-skip"):
         if not exp[k].behaviours:
             raise Infra("the transcription of the pinned code (%s) no longer yields counterexamples" % k)
-    directed = pick(ctx, exp["orig-names"], 3000 if th else 300, rnd) + pick(ctx, exp["orig-skip"], 1000 if th else 100, rnd)
-    long_b = list(exp["sim"].behaviours)
-    behs = pick(ctx, exp["names"], 4000 if th else 500, rnd) + pick(ctx, exp["chain"], 4000 if th else 400, rnd)
+    directed = pick(ctx, exp["orig-names"], 3000 if th else 100, rnd) + pick(ctx, exp["orig-skip"], 1000 if th else 40, rnd)
+    long_b = pick(ctx, exp["sim"], 2000 if th else 40, rnd)
+    behs = pick(ctx, exp["names"], 4000 if th else 200, rnd) + pick(ctx, exp["chain"], 4000 if th else 150, rnd)
     nexp = len(behs)
     behs += directed + long_b
     ctx.log("histories: %d exported, %d defect-directed, %d simulated" % (nexp, len(directed), len(long_b)))
     # 3. the real code
+    nfiles = 8
     res, out, rc = ctx.go_test("internal/metajournal", "TestVerifC20", inp=behs,
-                               env={"VERIF_NRANDOM": 1500 if th else 150}, timeout=1800)
+                               env={"VERIF_NRANDOM": 1500 if th else 60, "VERIF_NFILES": nfiles}, timeout=1800)
     res = ctx.need_result(res, out, rc, "TestVerifC20")
     consts = res.get("consts", {})
     if consts.get("BuiltinGroupIDDefault") != -4:
@@ -79,10 +80,12 @@ def run(ctx):
         if mm.get("sig") == "driver":
             raise Infra("driver problem: %s" % mm.get("got"))
     nbad = ctx.replay_s2i_mismatches(res, "real-chain")
-    trace = res["files"][0]
-    tv = validate(ctx, trace, "trace validation")
+    with ThreadPoolExecutor(max_workers=nfiles) as ex:
+        tvs = list(ex.map(lambda p: validate(ctx, p, "trace validation"), res["files"]))
     ntr = res["replayed"]
-    if tv.violated:
+    rejected = [(p, tv) for p, tv in zip(res["files"], tvs) if tv.violated]
+    if rejected:
+        trace, tv = rejected[0]
         keep = ctx.save("rejected_trace.ndjson", open(trace).read())
         tv2 = validate(ctx, keep, "trace re-validation")
         if not tv2.violated:
